@@ -5,3 +5,5 @@ import ZbossModel.Props.C13
 #print axioms Zboss.Host.C13_finish_removes
 #print axioms Zboss.Host.C13_no_new_listeners
 #print axioms Zboss.Host.C13_no_residue_any_schedule
+#print axioms Zboss.Host.settle_idle
+#print axioms Zboss.Host.C13_late_response_no_effect
